@@ -19,7 +19,8 @@ inductive Status | ok | noparse | notypecheck
   deriving DecidableEq, Repr
 
 inductive Call
-  | min (n : Int) | max (n : Int) | email | url | regex | optional | nilable
+  | min (n : Int) | max (n : Int) | gt (n : Int) | gte (n : Int) | lt (n : Int) | lte (n : Int)
+  | email | url | regex | optional | nilable
   | other (name : String)
   deriving DecidableEq, Repr
 
@@ -41,6 +42,7 @@ structure GenCell where
 /-- the tag rules a chain enforces -/
 def Call.rule? : Call → Option TRule
   | .min n => some (.min n) | .max n => some (.max n)
+  | .gt n => some (.gt n) | .gte n => some (.gte n) | .lt n => some (.lt n) | .lte n => some (.lte n)
   | .email => some .email | .url => some .url | .regex => some .regex
   | _ => none
 
@@ -131,6 +133,10 @@ def Call.ofString? (s : String) : Call :=
   match s.splitOn ":" with
   | ["Min", n] => (n.toInt?.map Call.min).getD (.other s)
   | ["Max", n] => (n.toInt?.map Call.max).getD (.other s)
+  | ["Gt", n] => (n.toInt?.map Call.gt).getD (.other s)
+  | ["Gte", n] => (n.toInt?.map Call.gte).getD (.other s)
+  | ["Lt", n] => (n.toInt?.map Call.lt).getD (.other s)
+  | ["Lte", n] => (n.toInt?.map Call.lte).getD (.other s)
   | ["Email"] => .email | ["URL"] => .url
   | ["Optional"] => .optional | ["Nilable"] => .nilable
   | "Regex" :: _ => .regex
